@@ -1,31 +1,33 @@
 #!/bin/bash
 # verify_seed.sh <prop> <n>: confirm a sub-agent's seeded change in a scratch worktree and file it under /verif/seeded
+# optional: SRC=<dir holding patch_N.diff ...> OUTN=<number under which it is filed>
 p=$1; n=$2
-src=/tmp/seed_out/$p
-wt=/tmp/sv/${p}_$n
-out=/verif/seeded/${p}-$n
+src=${SRC:-/tmp/seed_out/$p}
+outn=${OUTN:-$n}
+wt=/tmp/sv/${p}_$outn
+out=/verif/seeded/${p}-$outn
 [ -f $src/patch_$n.diff ] || { echo "$p-$n: no patch"; exit 1; }
 mkdir -p /tmp/sv; rm -rf $wt
 git -C /repo worktree add -q --detach $wt HEAD || exit 2
 cd $wt
 git apply $src/patch_$n.diff || { echo "$p-$n: patch does not apply"; git -C /repo worktree remove --force $wt; exit 3; }
-PYTHONPATH=$wt/src timeout 1800 /venv/bin/python -m pytest -q -p no:cacheprovider --timeout=900 > /tmp/sv/${p}_$n.suite.log 2>&1
+PYTHONPATH=$wt/src timeout 1800 /venv/bin/python -m pytest -q -p no:cacheprovider --timeout=900 > /tmp/sv/${p}_$outn.suite.log 2>&1
 suite_rc=$?
-passed=$(grep -aE '^[.sxFE]+ +\[' /tmp/sv/${p}_$n.suite.log | tr -d '\n' | tr -cd '.' | wc -c)
-sumline=$(grep -aE "passed|failed" /tmp/sv/${p}_$n.suite.log | tail -1)
-mkdir -p /tmp/sv/${p}_$n.run1 && cd /tmp/sv/${p}_$n.run1
-PYTHONPATH=$wt/src timeout 900 /venv/bin/python $src/demo_$n.py > /tmp/sv/${p}_$n.demo_with.log 2>/dev/null; with_rc=$?
+passed=$(grep -aE '^[.sxFE]+ +\[' /tmp/sv/${p}_$outn.suite.log | tr -d '\n' | tr -cd '.' | wc -c)
+sumline=$(grep -aE "passed|failed" /tmp/sv/${p}_$outn.suite.log | tail -1)
+mkdir -p /tmp/sv/${p}_$outn.run1 && cd /tmp/sv/${p}_$outn.run1
+PYTHONPATH=$wt/src timeout 900 /venv/bin/python $src/demo_$n.py > /tmp/sv/${p}_$outn.demo_with.log 2>/dev/null; with_rc=$?
 cd $wt; git checkout -q -- . 
-mkdir -p /tmp/sv/${p}_$n.run2 && cd /tmp/sv/${p}_$n.run2
-PYTHONPATH=$wt/src timeout 900 /venv/bin/python $src/demo_$n.py > /tmp/sv/${p}_$n.demo_without.log 2>/dev/null; without_rc=$?
-cd /; rm -rf /tmp/sv/${p}_$n.run1 /tmp/sv/${p}_$n.run2
+mkdir -p /tmp/sv/${p}_$outn.run2 && cd /tmp/sv/${p}_$outn.run2
+PYTHONPATH=$wt/src timeout 900 /venv/bin/python $src/demo_$n.py > /tmp/sv/${p}_$outn.demo_without.log 2>/dev/null; without_rc=$?
+cd /; rm -rf /tmp/sv/${p}_$outn.run1 /tmp/sv/${p}_$outn.run2
 git -C /repo worktree remove --force $wt
 ok=0; [ $suite_rc -eq 0 ] && [ $with_rc -eq 1 ] && [ $without_rc -eq 0 ] && ok=1
-echo "$p-$n: suite_rc=$suite_rc ($sumline) demo_with=$with_rc demo_without=$without_rc => confirmed=$ok"
+echo "$p-$outn: suite_rc=$suite_rc ($sumline) demo_with=$with_rc demo_without=$without_rc => confirmed=$ok"
 if [ $ok -eq 1 ]; then
   mkdir -p $out
   cp $src/patch_$n.diff $out/patch.diff; cp $src/demo_$n.py $out/demo.py; cp $src/notes_$n.md $out/notes.md 2>/dev/null
-  python3 - "$p" "$n" "$sumline" <<'PY'
+  python3 - "$p" "$outn" "$sumline" <<'PY'
 import json,sys,os
 p,n,sumline=sys.argv[1:4]
 out='/verif/seeded/%s-%s'%(p,n)
